@@ -102,13 +102,16 @@ func (ps *ProcessSet) StartAll(ctx context.Context) error {
 	go ps.run(ctx)
 
 	for _, process := range ps.executes {
+		// Watch the process from before it is started: a process that finishes
+		// quickly must not cease before its watcher has subscribed.
+		traces := process.Tracer().Subscribe()
+		ps.wg.Add(1)
+		go ps.tracerProcess(ctx, process, traces, &ps.wg)
+
 		err := process.StartAll(ctx)
 		if err != nil {
 			return fmt.Errorf("start process %s: %w", process.Id().String(), err)
 		}
-
-		ps.wg.Add(1)
-		go ps.tracerProcess(ctx, process, &ps.wg)
 	}
 
 	return nil
@@ -153,13 +156,15 @@ func (ps *ProcessSet) run(ctx context.Context) {
 							continue
 						}
 
+						traces := process.Tracer().Subscribe()
+						ps.wg.Add(1)
+						go ps.tracerProcess(ctx, process, traces, &ps.wg)
+
 						err = process.StartWith(ctx, startFlowNode)
 						if err != nil {
 							ps.tracer.Send(ErrorTrace{Error: err})
 							continue
 						}
-						ps.wg.Add(1)
-						go ps.tracerProcess(ctx, process, &ps.wg)
 					}
 					cancel, found := ps.triggerCatch(string(sourceRef.TargetRefField))
 					if found {
@@ -177,11 +182,10 @@ func (ps *ProcessSet) run(ctx context.Context) {
 	}
 }
 
-func (ps *ProcessSet) tracerProcess(ctx context.Context, process *Process, wg *sync.WaitGroup) {
+func (ps *ProcessSet) tracerProcess(ctx context.Context, process *Process, traces chan tracing.ITrace, wg *sync.WaitGroup) {
 	defer wg.Done()
 
 	verifAt("pset.watch.subscribe")
-	traces := process.Tracer().Subscribe()
 	defer process.tracer.Unsubscribe(traces)
 
 LOOP:
